@@ -422,3 +422,120 @@ def _const_call_arg(F, b, start, callee):
         else:
             return None
     return None
+
+
+# ------------------------------------------------------------------------------------------------
+# 6LoWPAN NHC UDP ports: per compression form, the reader must read each port from bits that carry that
+# port (and only that port) in the writer
+# ------------------------------------------------------------------------------------------------
+
+def _form_getter_bits(F, g, K):
+    """bits returned by the getter when ports_field() == K"""
+    for bi, bl in enumerate(g.blocks):
+        if bl['cl'] or bl['t'][0] != 'switch':
+            continue
+        d = simplify(F.origin.operand(g, bl['t'][1], bi, len(bl['s'])))
+        if not is_call(d, 'ports_field'):
+            continue
+        tg = bl['t'][2]
+        tb = dict((int(v), t) for v, t in tg).get(K)
+        if tb is None:
+            return None
+        cut = {(bi, t2) for v2, t2 in tg if t2 != tb} | ({(bi, bl['t'][3])} if bl['t'][3] != tb else set())
+        rb = g.restricted(cut)
+        r = simplify(ret_origin(F, rb))
+        return Eval(F, NHCU).ev(r, 16)
+    return None
+
+
+@rule('R06.4', ['C06', 'C20'], floor=8, clause='6LoWPAN NHC UDP ports: in each of the four compression forms, src_port()/dst_port() read exactly bits into which set_ports() stores that port and no bit that carries the other port')
+def r06_4(ctx):
+    F = ctx.F
+    s = ctx.method(NHCU, 'set_ports')
+    gs = {'src': ctx.method(NHCU, 'src_port'), 'dst': ctx.method(NHCU, 'dst_port')}
+    argno = {'src': 2, 'dst': 3}
+    spf = ctx.method(NHCU, 'set_ports_field')
+    arms = {}
+    for x in s.calls():
+        if s.callee_name(x[1]) == spf.key:
+            k = const_int(simplify(F.origin.operand(s, x[2][1], x[0], len(s.blocks[x[0]]['s']))))
+            if k is not None:
+                arms[k] = x[0]
+    ctx.need(sorted(arms) == [0, 1, 2, 3], f"four set_ports_field(K) arms in set_ports (found {sorted(arms)})")
+    reach = {k: set(s.reachable(start=b)) for k, b in arms.items()}
+    # dominating range facts for `port - K0`
+    le_facts = []
+    for bi, bl in enumerate(s.blocks):
+        if bl['cl'] or bl['t'][0] != 'switch':
+            continue
+        for tb, lab, f in cond_facts(F, s, bi):
+            if f[0] == 'rel':
+                le_facts.append(f)
+
+    def sub_hook(node, bb):
+        a, c = strip(node[2]), const_int(simplify(node[3]))
+        while a[0] == 'cast':
+            a = strip(a[1])
+        if a[0] != 'arg' or c is None:
+            return None
+        best = None
+        for hi in (c + 15, c + 255):
+            def pred(f, hi=hi, a=a):
+                if f[0] != 'rel':
+                    return False
+                x, y = strip(f[2]), strip(f[3])
+                return (f[1] == 'Le' and x == a and const_int(y) == hi) or (f[1] == 'Ge' and y == a and const_int(x) == hi)
+
+            def predlo(f, a=a, c=c):
+                if f[0] != 'rel':
+                    return False
+                x, y = strip(f[2]), strip(f[3])
+                return (f[1] == 'Le' and y == a and const_int(x) == c) or (f[1] == 'Ge' and x == a and const_int(y) == c)
+            if not unguarded(F, s, [bb], pred) and not unguarded(F, s, [bb], predlo):
+                best = (hi - c).bit_length()
+                break
+        return best
+    for K in sorted(arms):
+        only = reach[K] - set().union(*[reach[j] for j in arms if j != K])
+        try:
+            st = setter_stores(F, s, NHCU, only_blocks=only, sub_hook=sub_hook, ignore_calls=(spf.key,))
+        except Undecided as e:
+            ctx.bad(f"nhc-udp|form{K}|setter-undecided", f"set_ports form {K:#04b}: stores cannot be evaluated ({e})", body=s, bb=arms[K])
+            continue
+        for which, g in gs.items():
+            try:
+                gb = _form_getter_bits(F, g, K)
+            except Undecided as e:
+                gb = None
+            if gb is None:
+                ctx.bad(f"nhc-udp|form{K}|{which}|getter-undecided", f"{which}_port() form {K:#04b} cannot be evaluated", body=g)
+                continue
+            fp = getter_footprint(gb)
+            mine, other = ('a', argno[which]), ('a', argno['dst' if which == 'src' else 'src'])
+            prob = None
+            for (byte, bit) in sorted(fp):
+                sb = st.get(byte, [('b', byte, i) for i in range(8)])[bit]
+                at = atoms(sb)
+                if not any(a[:2] == mine for a in at):
+                    prob = f"reads byte {byte} bit {bit}, which set_ports does not fill from the {which} port (it holds {_desc(sb)})"
+                    break
+                if any(a[:2] == other for a in at):
+                    prob = f"reads byte {byte} bit {bit}, which set_ports also fills from the other port"
+                    break
+            # every bit that carries this port (and only it) should be read back
+            carried = {(byte, i) for byte, bits in st.items() for i, b in enumerate(bits)
+                       if any(a[:2] == mine for a in atoms(b)) and not any(a[:2] == other for a in atoms(b))}
+            if prob is None and not carried <= fp:
+                prob = f"never reads byte/bit {sorted(carried - fp)[:4]} into which set_ports stores the {which} port"
+            if prob:
+                ctx.bad(f"nhc-udp|form{K}|{which}", f"UdpNhcPacket::{which}_port() in form {K:#04b} {prob}: ports do not survive compression", body=g)
+            else:
+                ctx.ok(('nhc-udp', K, which), sample=dict(form=f"{K:#04b}", port=which, bits=sorted(fp)[:4]))
+
+
+def _desc(b):
+    if b in (0, 1):
+        return f"constant {b}"
+    if b[0] == 'b':
+        return 'the old buffer content'
+    return 'bits of ' + ','.join(sorted({f"arg{a[1]}" for a in atoms(b) if a[0] == 'a'})) or 'unknown'
